@@ -696,7 +696,7 @@ TIME_VALUES = (
 ISO_DATES = (
     (2000, 1, 1), (2024, 2, 29), (1999, 12, 31), (1, 1, 1), (9999, 12, 31), (-9998, 1, 1), (-1, 5, 7), (0, 12, 31),
     (2023, 9, 30), (1931, 6, 15), (2030, 12, 1), (2031, 1, 31), (1930, 3, 2), (1900, 2, 28), (10, 10, 10), (2000, 12, 31),
-    (1970, 1, 1), (2011, 11, 9), (2045, 6, 1), (2081, 1, 1),
+    (1970, 1, 1), (2011, 11, 9), (2045, 6, 1),
 )
 
 
@@ -733,13 +733,6 @@ def date_values(cal_ids, per_cal_only=False, rich=False):
                 t = (cid,) + c
                 if t not in out:
                     out.append(t)
-        # years on both sides of the two-digit-year pivots 30 / 79 / 80 in the present century and the one before
-        century = _CURRENT_YEAR.get(era_family(cid), 2000) // 100 * 100
-        for y in (century + 31, century + 45, century + 81, century - 100 + 45):
-            if cal.min_year <= y <= cal.max_year:
-                t = (cid, y, 1, 1)
-                if t not in out:
-                    out.append(t)
     return out
 
 
@@ -755,6 +748,14 @@ DURATION_VALUES = (
 )
 
 ANNUAL_VALUES = ((1, 1), (2, 29), (2, 28), (12, 31), (6, 15), (10, 10), (11, 30), (3, 1), (7, 31), (9, 9))
+
+
+def pivot_dates(cid):
+    """Dates on both sides of the two-digit-year pivots (30 / 79 / 80) in the calendar's present century and the one
+    before - for configurations that change the two-digit-year maximum."""
+    cal = Cal.get(cid)
+    century = _CURRENT_YEAR.get(era_family(cid), 2000) // 100 * 100
+    return [(cid, y, 1, 1) for y in (century + 31, century + 45, century + 81, century - 100 + 45, century - 100 + 81) if cal.min_year <= y <= cal.max_year]
 
 
 def datetime_values(dates, times=None):
